@@ -40,3 +40,58 @@ package NoKV
 //@   property C12
 //@   ensures [next-above-committed] o != nil && committed != 0 && committed < 18446744073709551615 ==> o.nextTxnTs.v > committed
 //@   ensures [never-lowers-next] o != nil && committed < 18446744073709551615 ==> o.nextTxnTs.v >= old(o.nextTxnTs.v)
+
+// C09 kernel (one commit batch, sequential): a batch's requests are acknowledged with a
+// nil error only after the value log write succeeded and - with SyncWrites - after a
+// successful WAL sync that followed the application of the batch. Ghost state is reset
+// when a batch is taken from the queue; badAcks counts acknowledgements that violate this.
+//@ ghost var batchCollected int
+//@ ghost var batchVlogOK bool
+//@ ghost var batchSyncs Int
+//@ ghost var badAcks Int
+//@ func (*DB).nextCommitBatch
+//@   trusted
+//@   ghost batchCollected = 0
+//@   ghost batchVlogOK = false
+//@   ghost batchSyncs = 0
+//@   modifies heap
+//@ func (*DB).collectCommitRequests
+//@   trusted
+//@   ghost batchCollected = len(result)
+//@   modifies heap
+//@ func (*valueLog).write
+//@   trusted
+//@   ghost batchVlogOK = result == nil
+//@   modifies heap
+//@ func (*DB).applyRequests
+//@   trusted
+//@   ghost batchSyncs = 0
+//@   ensures [failed-at-in-range] (result1 == nil) == (result == -1) && (result1 != nil ==> 0 <= result && result < len(reqs))
+//@   modifies heap
+//@ func github.com/feichai0017/NoKV/wal::(*Manager).Sync
+//@   trusted
+//@   ghost batchSyncs = (result == nil ? batchSyncs + 1 : batchSyncs)
+//@   modifies nothing
+//@ func (*DB).finishCommitRequests
+//@   trusted
+//@   ghost badAcks = ((defaultErr == nil && batchCollected > 0 && !(batchVlogOK && (batchSyncs > 0 || !db.opt.SyncWrites))) ? badAcks + 1 : badAcks)
+//@   modifies heap
+//@ func (*DB).releaseCommitBatch
+//@   trusted
+//@   modifies heap
+//@ func github.com/feichai0017/NoKV/metrics::(*WriteMetrics).RecordBatch
+//@   trusted
+//@   modifies nothing
+//@ func github.com/feichai0017/NoKV/metrics::(*WriteMetrics).RecordValueLog
+//@   trusted
+//@   modifies nothing
+//@ func github.com/feichai0017/NoKV/metrics::(*WriteMetrics).RecordApply
+//@   trusted
+//@   modifies nothing
+
+//@ func (*DB).commitWorker
+//@   property C09
+//@   requires db != nil
+//@   ensures [no-ack-before-durable] badAcks == old(badAcks)
+//@   loop 1 invariant [no-ack-before-durable] db != nil && badAcks == old(badAcks)
+//@   loop 2 invariant [filling-errors] db != nil && badAcks == old(badAcks) && batch != nil && i >= 0
